@@ -200,7 +200,7 @@ proof! {
 		let r = seg.validate(SIZE, Some(&bm), root);
 		check!(r.is_ok(), "an honest uncompacted segment validates under every unspent bitmap");
 		let first_leaf = (IDX << H) as usize;
-		let seg_leaves = core::cmp::min(1usize << H, NL - first_leaf);
+		let seg_leaves = core::cmp::min(1usize << H, NL.saturating_sub(first_leaf));
 		let seg_mask = (((1u32 << seg_leaves) - 1) << first_leaf) as u8;
 		cover!(mask & seg_mask == 0, "every leaf of the segment is spent");
 		cover!(mask == 0, "everything is spent");
